@@ -942,6 +942,14 @@ impl<'a> Gen<'a> {
             ("index:assign", "stel nl = [1.5, \"b\"]; nl[2] = [nl];"),
             ("compile:reference", "onbekend;"),
             ("compile:break", "stop;"),
+            // indices below the start and past the end, read and written, lists and strings
+            ("index:array-negative", "[1, 2][-5];"),
+            ("index:string-negative", "\"abc\"[-7];"),
+            ("index:assign-negative", "stel nl = [1.5, \"b\"]; nl[-3] = [nl];"),
+            ("index:string-assign", "stel nl = string(123); nl[5] = \"x\";"),
+            ("index:string-assign-negative", "stel nl = string(123); nl[-9] = \"x\";"),
+            ("index:string-assign-end", "stel nl = string(123); nl[3] = \"x\";"),
+            ("index:empty", "[][0];"),
         ];
         // a name whose block has ended is unknown again (a compile-time reference error)
         if self.rng.chance(1, 5) {
